@@ -11,10 +11,10 @@ import sys
 import time
 
 from sim import core, ddmin
-from checks import c20_cache, c20_events, c20_worker
+from checks import c20_cache, c20_client, c20_events, c20_worker
 
 PROP = 'C20'
-WORKLOADS = {'cache': c20_cache, 'worker': c20_worker, 'events': c20_events}
+WORKLOADS = {'cache': c20_cache, 'worker': c20_worker, 'events': c20_events, 'client': c20_client}
 
 # (workload, fault_mode, share of the tier's run budget)
 MIX = [
@@ -22,6 +22,9 @@ MIX = [
     ('worker', 'none', 0.10), ('worker', 'task_raises', 0.08), ('worker', 'kill', 0.04), ('worker', 'stall', 0.04),
     ('events', 'none', 0.12),
 ]
+# the real-client workload (DMRG under a threaded cache / DMRGThreadPlusHC) costs ~1-3 s per run: fixed counts
+CLIENT_RUNS = {'quick': {'none': 48, 'stall': 24, 'io': 24}, 'thorough': {'none': 1200, 'stall': 500, 'io': 500}}
+CLIENT_CHUNK = 3
 BUDGET = {'quick': 160000, 'thorough': 4000000}
 WALL_CAP = {'quick': 100.0, 'thorough': 1500.0}
 CHUNK = 400
@@ -36,6 +39,8 @@ def plan_for(workload, fault_mode, verif_seed, i):
 def nontrivial(workload, plan, r):
     if r.get('skipped'):
         return False
+    if workload == 'client':
+        return r['switches'] > 0
     if workload == 'events' or (workload == 'cache' and not plan['cfg']['threaded']):
         return len(r.get('trace', ())) >= 3
     return r['switches'] > 0 or bool(r['faults_fired']) or any(k.startswith('fault_fired') for k in r['probes'])
@@ -277,6 +282,10 @@ def main(argv=None):
         n = max(CHUNK, int(budget * share))
         per_mix.append((workload, fm, n))
     # interleave the mixes so that a wall cap cuts all of them proportionally
+    if not args.only or args.only == 'client':
+        scale = 1.0 if not args.runs else min(1.0, args.runs / BUDGET[tier])
+        for fm, n in CLIENT_RUNS[tier].items():
+            per_mix.append(('client', fm, max(CLIENT_CHUNK, int(n * scale))))
     cursors = {(w, fm): 0 for w, fm, n in per_mix}
     remaining = True
     while remaining:
@@ -284,7 +293,7 @@ def main(argv=None):
         for w, fm, n in per_mix:
             c = cursors[(w, fm)]
             if c < n:
-                cnt = min(CHUNK, n - c)
+                cnt = min(CLIENT_CHUNK if w == 'client' else CHUNK, n - c)
                 items.append((w, fm, c, cnt))
                 cursors[(w, fm)] = c + cnt
                 remaining = True
@@ -426,7 +435,9 @@ def main(argv=None):
         'distinct_nontrivial': len(tot['nontrivial']),
         'rule': ('one evaluation = one simulated run: a seeded operation history (cache: 4-40 dict operations over '
                  '<=4 keys and <=4 (sub-)caches on one of 5 storage classes, optionally behind ThreadedStorage; '
-                 'worker: put_task/join_tasks/__exit__ sequences; events: connect/disconnect/emit/copy sequences) '
+                 'worker: put_task/join_tasks/__exit__ sequences; events: connect/disconnect/emit/copy sequences; '
+                 'client: a finite DMRG run whose environments live in a threaded Pickle/HDF5 cache and/or whose '
+                 'matvec is split with a Worker thread, compared with the in-RAM / serial run) '
                  'executed against real tenpy code under the simulated scheduler with a seeded schedule and fault '
                  'plan, every return value compared with a reference model. Non-trivial: at least one context '
                  'switch between caller and worker happened inside the history or a fault fired (threaded '
